@@ -467,10 +467,10 @@ Proof. intros. eapply ks_mark_spec in H2; eauto. destruct H2 as (? & ? & _). aut
 
 (* adding a particle during the encounter step: all arrays cover the new N, the map stays a valid injection
    (the new index appended), no access outside dcrit / encounter_map / current_Ks *)
-Theorem hadd_ok : forall s h p d s' h', active h = true -> hyb_ok s h -> hadd s h p d = (s', h') ->
+Theorem hadd_ok : forall s h p d s' h', active h = true -> hyb_ok s h -> add_refused s p = false -> hadd s h p d = (s', h') ->
   hyb_ok s' h' /\ hoob h' = hoob h /\ sN s' = S (sN s) /\ eN h' = S (eN h).
 Proof.
-  intros s h p d s' h' Ha (V & HN & HK) H. unfold hadd in H.
+  intros s h p d s' h' Ha (V & HN & HK) HR H. unfold hadd in H. rewrite HR in H.
   assert (Hn : sN (add s p) = S (sN s)) by reflexivity.
   remember (add s p) as s1 eqn:Es1. clear Es1. cbv zeta in H. injection H as Hs Hh. subst s'.
   assert (E1 : S (sN s) - 1 = sN s) by lia.
@@ -590,7 +590,9 @@ Theorem trace_full_add_map_untouched : forall s h p d s' h', kind h = ITrace -> 
   hadd s h p d = (s', h') ->
   eN h' = eN h /\ eNact h' = eNact h /\ firstn (length (emap h)) (emap h') = emap h.
 Proof.
-  intros s h p d s' h' HK HM H. unfold hadd in H. rewrite HK, HM in H. cbn [Nat.eqb orb] in H. cbv zeta in H.
+  intros s h p d s' h' HK HM H. unfold hadd in H.
+  destruct (add_refused s p); [inversion H; subst; repeat split; auto; apply firstn_all|].
+  rewrite HK, HM in H. cbn [Nat.eqb orb] in H. cbv zeta in H.
   destruct (ks_grow _ _ _ _) as [k1 ob1]. destruct (ks_zero _ _ _ _ _ _) as [kz obz].
   inversion H; subst. cbn [eN eNact emap]. split; auto. split; auto.
   destruct (length (emap h) <? S (sN s)).
@@ -602,12 +604,15 @@ Qed.
    untouched, N is unchanged, so the invariant of the encounter step is preserved; the particle array keeps
    the same particles (the re-inserted one moves to the end, the last one into its slot), no access outside
    the particle storage *)
-Theorem tree_reinsert_ok : forall s h i s' h', wf s -> i < sN s -> tree_reinsert s h i = (s', h') ->
+Theorem tree_reinsert_ok : forall s h i s' h', wf s -> i < sN s ->
+  add_refused (reinsert_mid s i) (nth i (mem s) pzero) = false ->      (* it does not coincide with another particle *)
+  tree_reinsert s h i = (s', h') ->
   h' = h /\ sN s' = sN s /\ wf s' /\ oob s' = oob s /\
   aps (abs s') = remove_swap i (aps (abs s)) ++ [nth i (aps (abs s)) pzero] /\
   (hyb_ok s h -> hyb_ok s' h').
 Proof.
-  intros s h i s' h' [Hm Ht] Hi H. unfold tree_reinsert in H. injection H as Hs Hh. subst h'.
+  intros s h i s' h' [Hm Ht] Hi HR H. unfold tree_reinsert, add_op in H. rewrite HR in H. cbn [fst] in H.
+  injection H as Hs Hh. subst h'. unfold reinsert_mid in *.
   set (s1 := mkS (tcfg s) (upd (mem s) i (nth (sN s - 1) (mem s) pzero)) (sN s - 1) (sNact s) (sNvar s) (tab s) (nlook s) (tree s)
                  (oob s + chk (length (mem s)) i + chk (length (mem s)) (sN s - 1) + chk (length (mem s)) i)) in *.
   assert (W1 : wf s1) by (split; cbn; [rewrite upd_length; lia|auto]).
